@@ -52,3 +52,4 @@ def run(chk):
     chk.require('random_strn', 100)
     chk.require('random_inplace', 100)
     chk.min_cases = GRID
+    chk.coverage(build('cov'), 600)       # thorough tier: gcov line coverage of the anchored sources under this workload
